@@ -1,5 +1,5 @@
 (* Glue between the sx line format and the C14 model (unverified, trusted, tiny). *)
-From YV Require Import Common.Tac Common.Sx C14.C14Model.
+From YV Require Import Common.Tac Common.Sx C14.C14Model C14.C14Durable.
 
 Definition op_of (s : sx) : op :=
   let a := sx_get_n (sx_nth s 1) in
@@ -37,17 +37,28 @@ Definition st_sx (s : st) : sx :=
        sx_bool (rf s);
        sx_bool (mgr s) ].
 
-Fixpoint trace (batch : nat) (s : st) (ops : list op) : list sx :=
+(* 8 m: killed inside the refill of a connect with m keys of the batch stored; 9 m sg: killed inside the reaction
+   to a key-count request (C14Durable.xop) *)
+Definition xop_of (s : sx) : xop :=
+  match N.to_nat (sx_get_n (sx_nth s 0)) with
+  | 8%nat => XKillConnect (N.to_nat (sx_get_n (sx_nth s 1)))
+  | 9%nat => XKillAsk (negb (sx_get_n (sx_nth s 2) =? 0)%N) (N.to_nat (sx_get_n (sx_nth s 1)))
+  | _ => XOp (op_of s)
+  end.
+
+Definition xwf (s : st) (x : xop) : bool := match x with XOp o => wf_op s o | _ => true end.
+
+Fixpoint trace (batch : nat) (s : st) (ops : list xop) : list sx :=
   match ops with
   | [] => []
   | o :: ops' =>
-    let '(s1, evs) := step batch s o in
-    SL [SL (map ev_sx evs); st_sx s1; sx_bool (wf_op s o)] :: trace batch s1 ops'
+    let '(s1, evs) := xstep batch s o in
+    SL [SL (map ev_sx evs); st_sx s1; sx_bool (xwf s o)] :: trace batch s1 ops'
   end.
 
 (* arg: (Nbatch (op ...)) -> per op: (events, state after, was the op well-formed) *)
 Definition run_hist (arg : sx) : sx :=
-  SL (trace (N.to_nat (sx_get_n (sx_nth arg 0))) init (map op_of (sx_get_l (sx_nth arg 1)))).
+  SL (trace (N.to_nat (sx_get_n (sx_nth arg 0))) init (map xop_of (sx_get_l (sx_nth arg 1)))).
 
 (* arg: Nid -> B adjustId(id) *)
 Definition run_adjust_id (arg : sx) : sx := SB (adjust_id (sx_get_n arg)).
